@@ -86,8 +86,8 @@ D_CLAUSES = {
     "C19": "the Some/None decision of to_uN / to_iN with the digits that decide representability, the value with the low digits; from_uN / from_iN / from_fN digits with the operand",
     "C20": "every digit of a Standard sample with the RNG output",
 }
-D_TECH = "; index-sensitive dependence analysis (constant propagation of loop counters at concrete digit counts, per-digit may-dependence sets, control dependence through post-dominators)"
-D_NOTE = " Rule D decides only WHICH input digits / bytes can reach WHICH output digits (a necessary condition); the values the loops compute remain undecided."
+D_TECH = "; index-sensitive dependence analysis (constant propagation of loop counters at concrete digit counts, per-digit and per-byte may-dependence sets, control dependence through post-dominators)"
+D_NOTE = " Rule D decides only WHICH input digits / bytes can reach WHICH output digits / bytes (a necessary condition); the values the loops compute remain undecided."
 
 NOT_APPLICABLE = {}
 
